@@ -52,6 +52,11 @@ struct Gen {
 			}
 			if (bt == 2 && a > 0 && r.chance(1, 2)) up[j] = Num(Q(-a));   // negative upper bound
 			c.lo = numstr(lo[j]); c.up = numstr(up[j]);
+			// most columns get an objective sign that cannot run off to infinity (unbounded LPs walk the whole
+			// 13-stage ladder and are expensive); fam 9 and 1 column in 5 keep an arbitrary sign
+			if (fam != 9 && !r.chance(1, 5)) { Q cv; parse_q(c.obj, cv); int want = 0;   // sign of c in minimisation form that is safe
+				if (lo[j].fin() && !up[j].fin()) want = 1; else if (!lo[j].fin() && up[j].fin()) want = -1; else if (!lo[j].fin() && !up[j].fin()) want = 2;
+				if (want == 2) c.obj = "0"; else if (want != 0) { Q mf = Q(L.objsense) * cv; if ((want > 0 && mf < 0) || (want < 0 && mf > 0)) { cv = -cv; c.obj = cv.get_str(); } } }
 			// a point inside the bounds
 			Q t; parse_q(pos(), t);
 			if (lo[j].fin() && up[j].fin()) x0[j] = r.chance(1, 3) ? lo[j].v : r.chance(1, 2) ? up[j].v : Q((lo[j].v + up[j].v) / 2);
@@ -258,5 +263,6 @@ Plan make_plan(const std::string &profile, uint64_t seed, const Args &opts) {
 	else if (profile == "config") profile_config(g);
 	else profile_hist(g, false, false);
 	for (auto &kv : opts) if (starts_with(kv.first, "knob.")) p.knobs[kv.first.substr(5)] = kv.second;
+	{ auto it = opts.find("avoid"); if (it != opts.end() && !it->second.empty()) p.knobs["avoid"] = it->second; }
 	return p;
 }
